@@ -262,6 +262,7 @@ func c02Gen(r *ev.Rand, thorough bool, steered bool) *c02Case {
 	}
 	phase := r.Intn(3) // 0 random mix, 1 grow then shrink then grow, 2 overwrite heavy
 	sessionBreaks := r.Intn(3)
+	nlinks := 0
 	for i := 0; i < nops; i++ {
 		ti := r.Intn(len(cs.Targets))
 		target := cs.Targets[ti]
@@ -290,6 +291,12 @@ func c02Gen(r *ev.Rand, thorough bool, steered bool) *c02Case {
 			add(hx.Op{K: "attr", Path: target, Name: name, Data: &v})
 		} else {
 			add(hx.Op{K: "delattr", Path: target, Name: name})
+		}
+		// another writer of the same object header: a hard link to the object adds (or bumps) a
+		// reference-count message among the attribute messages
+		if r.Chance(1, 20) && nlinks < 4 {
+			add(hx.Op{K: "hardlink", Path: fmt.Sprintf("/hl%d", nlinks), Target: target})
+			nlinks++
 		}
 		if sessionBreaks > 0 && !steered && r.Chance(1, nops/2+1) {
 			sessionBreaks--
